@@ -1587,7 +1587,19 @@ where
             // it in the above if stmt.
             match **unsafe { raw_node.deref() } {
                 BinEntry::Moved => {
-                    table = self.help_transfer(table, guard);
+                    // NOTE: unlike the Java code, we must not start emptying the next table while
+                    // the resize is still in progress: `transfer` fills the bins of the next
+                    // table _before_ it forwards the corresponding old bin, and re-uses the old
+                    // nodes there. Until the forwarding marker is stored, those nodes are still
+                    // reachable through the old bin by threads that pin only _after_ we retired
+                    // them (Java's garbage collector keeps them alive; we would free them). So we
+                    // help with the transfer, and only move on once `table` has been replaced.
+                    self.help_transfer(table, guard);
+                    while self.table.load(Ordering::SeqCst, guard) == table {
+                        std::thread::yield_now();
+                        self.help_transfer(table, guard);
+                    }
+                    table = self.table.load(Ordering::SeqCst, guard);
                     // start from the first bin again in the new table
                     idx = 0;
                 }
